@@ -51,7 +51,9 @@ Print Assumptions C12_empty.
    the deletion carries the reservation of the read that produced the entry, and every
    cancelled round was started again from Reserve.
    [atomic_trace rid rc t] := exists t0 R gets, t = t0 ++ (reserve_req, R) :: gets ++
-   [(delete_req R rid, ok (rec_id rc))] /\ Forall (is_get R rid) gets. *)
+   [(delete_req R rid, ok (rec_id rc))] /\ Forall (is_get R rid) gets /\ got gets = rc,
+   where [got] concatenates the record bytes of the successful Get SEL Entry replies:
+   the reads under R are the ones that produced the whole entry. *)
 Theorem C12_atomic : forall rid rc s nx,
   rid < 65536 -> rid <> 0xffff -> rec_ok rc ->
   lookup (sd_log s) rid = Some (rc, nx) -> limit_ok (sd_limit s) ->
